@@ -266,19 +266,23 @@ def execute(case, stats):
     want = ref_extract(views, tried, km["mode"] == "all")
 
     path = None
+    # the documented parameters (fobj/data/path, xor_keys, all_xor_keys) by keyword or, every third case, by position
+    args = ()
+    if case["seed"] % 3 == 0:
+        args, kwargs = (kwargs.get("xor_keys"), kwargs.get("all_xor_keys", False)), {}
     try:
         with buffer_size(bufsize):
             if case["entry"] == "bytes":
-                r = lib(BeaconConfig.from_bytes, data, allow=(ValueError,), what="BeaconConfig.from_bytes", **kwargs)
+                r = lib(BeaconConfig.from_bytes, data, *args, allow=(ValueError,), what="BeaconConfig.from_bytes", **kwargs)
             elif case["entry"] == "file":
                 fobj = io.BytesIO(data)
                 fobj.seek(case["seed"] % (len(data) + 1))  # extraction must not depend on where the handle currently is
-                r = lib(BeaconConfig.from_file, fobj, allow=(ValueError,), what="BeaconConfig.from_file", **kwargs)
+                r = lib(BeaconConfig.from_file, fobj, *args, allow=(ValueError,), what="BeaconConfig.from_file", **kwargs)
             else:
                 fd, path = tempfile.mkstemp(prefix="c01_", dir="/dev/shm")
                 with os.fdopen(fd, "wb") as f:
                     f.write(data)
-                r = lib(BeaconConfig.from_path, path, allow=(ValueError,), what="BeaconConfig.from_path", **kwargs)
+                r = lib(BeaconConfig.from_path, path, *args, allow=(ValueError,), what="BeaconConfig.from_path", **kwargs)
     finally:
         if path:
             os.unlink(path)
